@@ -353,43 +353,47 @@ def server_level(ctx, rng, hostile_cmds, hostile_handshakes):
         witness = connect(0)
         target = connect(1)
         tid = 1
-        for payload in hostile_cmds:
+        # every hostile payload with the right sequence id; well-formed and hostile payloads with a wrong one
+        wrong_seq = [bytes([cl.COM_PING]), bytes([cl.COM_QUERY]) + b"SELECT 1", b"", bytes([cl.COM_QUERY]) + b"x" * 300,
+                     bytes([cl.COM_STMT_EXECUTE]) + b"\x01\x00\x00\x00\x00\x01\x00\x00\x00"] + list(hostile_cmds[:: max(1, len(hostile_cmds) // 12)])
+        framed = [(p, 0) for p in hostile_cmds] + [(p, q) for p in wrong_seq for q in (1, 7, 255)]
+        for payload, seqid in framed:
             n += 1
             if target.blocked_on() == "done":
                 tid += 1
                 target = connect(tid)
-            res = guarded(lambda: target.feed(cl.frame(payload, 0)))
+            res = guarded(lambda: target.feed(cl.frame(payload, seqid)))
             if res == ("Hang",):
-                problems.append(dict(kind="hang", phase="command", payload=list(payload[:64]), length=len(payload)))
+                problems.append(dict(kind="hang", phase="command", payload=list(payload[:64]), length=len(payload), seq=seqid))
                 return problems, n
             try:
                 raw = cl.split_raw(target.take())
             except ValueError as e:
-                problems.append(dict(kind="garbled-output", payload=list(payload[:64]), error=str(e)))
+                problems.append(dict(kind="garbled-output", payload=list(payload[:64]), seq=seqid, error=str(e)))
                 continue
             state = target.blocked_on()
             if state == "done":
                 if not target.writer.closed or any(k for k in ctl._connections if ctl._connections[k] is not None and getattr(ctl._connections[k], "stream", None) and ctl._connections[k].stream.writer is target.writer):
-                    problems.append(dict(kind="not-released", payload=list(payload[:64])))
+                    problems.append(dict(kind="not-released", payload=list(payload[:64]), seq=seqid))
             elif state != "read":
-                problems.append(dict(kind="stuck", state=state, payload=list(payload[:64])))
+                problems.append(dict(kind="stuck", state=state, payload=list(payload[:64]), seq=seqid))
                 target.eof()
                 continue
             else:
                 if raw and raw[0][1][:1] == b"\xff" and len(raw) != 1:
-                    problems.append(dict(kind="more-than-one-packet-with-ERR", payload=list(payload[:64]), n=len(raw)))
+                    problems.append(dict(kind="more-than-one-packet-with-ERR", payload=list(payload[:64]), seq=seqid, n=len(raw)))
                 if raw and [q for q, _ in raw] != [(1 + i) % 256 for i in range(len(raw))]:
-                    problems.append(dict(kind="sequence", payload=list(payload[:64]), seqs=[q for q, _ in raw][:5]))
+                    problems.append(dict(kind="sequence", payload=list(payload[:64]), seq=seqid, seqs=[q for q, _ in raw][:5]))
                 if payload[:1] == bytes([cl.COM_CHANGE_USER]) and raw and raw[-1][1][:1] in (b"\xfe", b"\x01"):
                     # the server legitimately started an auth-switch / more-data exchange and now waits for the
                     # client's reply: not a command boundary.  End this connection and go on with a new one.
                     target.eof()
                     continue
                 if not ping_ok(target):
-                    problems.append(dict(kind="out-of-step", payload=list(payload[:64])))
+                    problems.append(dict(kind="out-of-step", payload=list(payload[:64]), seq=seqid))
                     target.eof()
             if not ping_ok(witness):
-                problems.append(dict(kind="witness-not-served", payload=list(payload[:64])))
+                problems.append(dict(kind="witness-not-served", payload=list(payload[:64]), seq=seqid))
                 break
         # hostile handshake responses: one ERR then close (or accepted), registration released
         for hp in hostile_handshakes:
